@@ -94,6 +94,9 @@ func (c14) step(t []string) string {
 			if r != nil {
 				return fmtInts(r) + " err-with-result " + fmtInts(in)
 			}
+			if pos != j { // "stops at the first error": the conversion is not called again after it failed
+				return "[] " + err.Error() + "-then-" + itoa(pos-j) + "-more-calls " + fmtInts(in)
+			}
 			return "[] " + err.Error() + " " + fmtInts(in)
 		}
 		out := fmtInts(r)
